@@ -10,6 +10,7 @@ CONSTANTS
   OrphanMetaKept = FALSE
   CorruptIgnoresMeta = FALSE
   MayRelease = TRUE
+  DropBeforeDrain = FALSE
 INVARIANTS Safe HolderOwnsLock LiveResidentKept
 
 CHECK_DEADLOCK FALSE
